@@ -70,7 +70,7 @@ ASAN_ENV = {"ASAN_OPTIONS": "detect_leaks=0:halt_on_error=0:abort_on_error=0:han
             "UBSAN_OPTIONS": "print_stacktrace=0:halt_on_error=0"}
 
 
-def run_vdrv(exe, conf, scenarios, work, tag="run", jobs=16, timeout=20, env=None):
+def run_vdrv(exe, conf, scenarios, work, tag="run", jobs=16, timeout=8, env=None):
     """scenarios: list of (id, [op-line,...]).  Runs them in `jobs` harness processes.
     Returns list of executions: dict(id=..., events=[...], end={...}) in scenario order."""
     if not scenarios:
